@@ -98,7 +98,26 @@ def gen_case(rng):
     return case
 
 
-class Sink:
+class _OutBase:
+    """What a binary output stream offers besides write() (the streamer may
+    use any of it): writelines goes through write, item by item, as
+    io.IOBase.writelines does."""
+
+    def writelines(self, lines):
+        for line in lines:
+            self.write(line)
+
+    def flush(self):
+        pass
+
+    def writable(self):
+        return True
+
+    def close(self):
+        pass
+
+
+class Sink(_OutBase):
     """Output stream: records the size of every write."""
 
     def __init__(self, keep=True):
@@ -309,6 +328,32 @@ def one_buffer(case, root, b, world, want_files=True):
     return res
 
 
+def shared_index_streams(case, root, sizes):
+    """ONE FastaIndex object whose buffer_size attribute is set to each size in
+    turn, streaming the case's assembly each time: what an earlier size left
+    behind in the object must not show."""
+    from tola.fasta import index as index_mod
+    from tola.fasta.stream import FastaStream
+
+    fa = Path(root) / "g.fa"
+    idx, _asm = index_mod.index_fasta_file(fa, sizes[0])
+    fi = index_mod.FastaIndex(fa, sizes[0])
+    fi.index = idx
+    out_asm, _lf, _lg, _rev = build_assembly(case, idx)
+    outs = []
+    try:
+        for b in sizes:
+            fi.buffer_size = b
+            sink = Sink()
+            FastaStream(sink, fi, line_length=case["knobs"]["line_length"]).write_assembly(out_asm)
+            outs.append(bytes(sink.data))
+    finally:
+        fh = fi.__dict__.get("fasta_fileandle")
+        if fh is not None:
+            fh.close()
+    return outs
+
+
 def execute_case(case, run_seed, tier, tag=""):
     root = sandbox.make(ID, tier, run_seed, tag)
     violations = []
@@ -392,6 +437,27 @@ def execute_case(case, run_seed, tier, tag=""):
                             f"b{cmpf(b, min(widths))}w b{cmpf(b, lf)}frag b{cmpf(b, lg)}gap rev={int(rev)} "
                             f"multi={int(res['multi'])} exact={int(any(L % b == 0 for L in lens))} rb{cmpf(k['read_buf'], b)}b"
                         )
+                if not violations and ref is not None and not discarded and len(order) > 1:
+                    # the same sizes, in the same order, on one shared index object
+                    try:
+                        outs = shared_index_streams(case, root, order)
+                    except Exception as e:  # noqa: BLE001
+                        outs = None
+                        violations.append({
+                            "oracle": "differential_exception", "site": type(e).__name__,
+                            "detail": f"streaming from one index object with buffer_size set to {order} in turn raised {e!r}",
+                            "buf": order[-1], "pos": len(order) - 1,
+                        })
+                    evals += 1
+                    for pos, (b, got) in enumerate(zip(order, outs or [])):
+                        if got != ref["stream"]:
+                            violations.append({
+                                "oracle": "differential_stream_shared_index", "site": "streamed FASTA bytes (one index object, buffer_size changed)",
+                                "detail": f"one FastaIndex object, buffer_size set to {order[:pos + 1]} in turn: the stream at buffer_size={b} "
+                                          f"differs from the reference\n got: {_short(got)}\n ref: {_short(ref['stream'])}",
+                                "buf": b, "pos": pos, "needs_order": True,
+                            })
+                            break
             finally:
                 if gc_was:
                     gc.enable()
@@ -426,7 +492,7 @@ def _replay_case(case, v):
     if len(order) > 1:
         order.append(order[0])
     pos = v.get("pos", len(order) - 1)
-    if case.get("ordered") or (pos == len(order) - 1 and len(order) > 1):
+    if case.get("ordered") or v.get("needs_order") or (pos == len(order) - 1 and len(order) > 1):
         used = order[:pos + 1]
         if len(used) > 1 and used[-1] == used[0]:
             used = used[:-1]  # the repeat of the first is appended again at run time
@@ -627,7 +693,7 @@ def many_records_case(rng, run_seed, tier):
                     out_asm.add_scaffold(sc)
             h = hashlib.blake2b(digest_size=16)
 
-            class H:
+            class H(_OutBase):
                 def write(self, d):
                     h.update(d)
 
@@ -697,7 +763,7 @@ def large_case(run_seed, tier, which):
             out_asm = Assembly("a")
             out_asm.add_scaffold(sc)
 
-            class H:
+            class H(_OutBase):
                 def __init__(self):
                     self.h = hashlib.blake2b(digest_size=16)
                     self.n = 0
